@@ -40,6 +40,8 @@ type runRec struct {
 
 var props = map[string]*propDef{}
 
+var detPairs, detDiverged int
+
 func register(p *propDef) { props[p.id] = p }
 
 func parseFlags(args []string) (pos []string, flags map[string]string) {
@@ -225,6 +227,28 @@ func cmdCheck(args []string) int {
 		}
 	}
 	recs := runAll(bin, specs, p.wallPerRun, deadline)
+	// determinism spot check: re-run a few specs and compare event-log hashes
+	// (a divergence is a harness bug: exit 2, never a verdict)
+	detPairs, detDiverged = 0, 0
+	if len(recs) > 0 {
+		k := min(4, len(recs))
+		var again []*spec.RunSpec
+		for i := 0; i < k; i++ {
+			again = append(again, recs[i*len(recs)/k].spec)
+		}
+		second := runAll(bin, again, p.wallPerRun, deadline)
+		for i, r := range second {
+			first := recs[i*len(recs)/k].res
+			if first.EventHash == "" && r.res.EventHash == "" {
+				continue
+			}
+			detPairs++
+			if first.EventHash != r.res.EventHash || first.Events != r.res.Events {
+				detDiverged++
+				enumProblems = append(enumProblems, fmt.Sprintf("determinism: run seed %d produced event hashes %s/%d and %s/%d", r.spec.Seed, first.EventHash, first.Events, r.res.EventHash, r.res.Events))
+			}
+		}
+	}
 	if p.race {
 		rbin, err := buildSim(true)
 		if err != nil {
